@@ -288,6 +288,12 @@ func Consensus(trees <-chan Trees, cutoff float64) (*Tree, error) {
 			return nil, curtree.Err
 		}
 
+		// The two branches under the root of a rooted tree define the same
+		// bipartition, which must be counted only once per tree
+		if curtree.Tree.Rooted() {
+			curtree.Tree.UnRoot()
+		}
+
 		if err = curtree.Tree.ReinitIndexes(); err != nil {
 			return nil, err
 		}
